@@ -36,6 +36,10 @@ def stepCodec (toks : List String) : Option String :=
   | ["ascii_enc", q, w, d, rs] => do
     let q ← qtyOf q; let w ← w.toNat?; let d ← d.toNat?; let rs ← parseRngs rs
     pure (hexOfString (encodeText d (itemsOf q w d rs)))
+  | ["json_enc", q, w, d, rs] => do
+    -- the JSON document reduced to its token stream (cells only), in the ASCII token syntax
+    let q ← qtyOf q; let w ← w.toNat?; let d ← d.toNat?; let rs ← parseRngs rs
+    pure (hexOfString (encodeText d (cellItemsOf q w d rs)))
   | ["fits_payload", w, rs] => do
     let w ← w.toNat?; let rs ← parseRngs rs
     let bytes := (encodeWords rs).flatMap (toBE (w / 8))
